@@ -4,7 +4,7 @@ import os, sys, random
 from fractions import Fraction
 import vlib
 
-LEAN_TARGETS = ['CvxVerif.Props.C16']
+LEAN_TARGETS = ['CvxVerif.Props.C16', 'CvxVerif.Props.C16More']
 MODEL_FILES = ['CvxVerif.Model.Sparse', 'CvxVerif.Proofs.Sparse']
 LEVEL = 'proof'
 TRUSTED = ['hand-written model lean/CvxVerif/Model/Sparse.lean (entries in storage order; insertion with accumulation), tied by the exact '
@@ -177,6 +177,33 @@ def correspond(ctx):
                                 p = ri[t]
                                 if p >= q and vv[t] != C2[p, q]: ok = False
                     if not ok: ctx.violation('c16:partial-syrk', 'base.syrk(partial=True) does not equal the full product restricted to the old pattern', {'sequence': list(seq)})
+    # complex matrices (the Lean model is real): the same operations against the dense complex semantics (oracle only)
+    ncomplex = 150 if ctx.quick() else 3000
+    def cval(): return complex(rng.randint(-3, 3), rng.randint(-3, 3))
+    for it in range(ncomplex):
+        m, n = rng.randint(1, 4), rng.randint(1, 4)
+        def rand_sp(m, n):
+            k = rng.randint(0, 6)
+            trip = [(rng.randrange(m), rng.randrange(n), cval()) for _ in range(k)]
+            if trip and rng.random() < 0.5: trip.append((trip[0][0], trip[0][1], cval()))       # a repeated position: values are summed
+            A = spmatrix([t[2] for t in trip], [t[0] for t in trip], [t[1] for t in trip], (m, n), 'z')
+            D = matrix(0.0, (m, n), 'z')
+            for i, j, v in trip: D[i, j] += v
+            return A, D, trip
+        A, D, trip = rand_sp(m, n)
+        dense_eq(A, D, 'construction of a complex matrix from triplets', ['complex', str(trip), (m, n)])
+        B, DB, tb = rand_sp(m, n)
+        dense_eq(A + B, D + DB, 'add (complex)', ['complex', str(trip), str(tb)])
+        dense_eq(A - B, D - DB, 'sub (complex)', ['complex', str(trip), str(tb)])
+        C, DC, tc_ = rand_sp(n, rng.randint(1, 3))
+        dense_eq(A * C, D * DC, 'mul (complex)', ['complex', str(trip), str(tc_)])
+        dense_eq(A.T, D.T, 'transpose (complex)', ['complex', str(trip)])
+        dense_eq(A.H, D.H, 'conjugate transpose (complex)', ['complex', str(trip)])
+        a = cval()
+        dense_eq(a * A, a * D, 'scalar multiplication (complex)', ['complex', str(trip), str(a)])
+        i, j = rng.randrange(m), rng.randrange(n); v = cval()
+        A2 = +A; D2 = +D; A2[i, j] = v; D2[i, j] = v
+        dense_eq(A2, D2, 'indexed assignment (complex)', ['complex', str(trip), (i, j, str(v))])
     out = vlib.drive('C16', lines)
     dis = 0
     st = 0
